@@ -399,7 +399,10 @@ def _non_empty_lines(prog, rep):
     # canonical orientation of the atoms as pred.cmp_fact would produce them
     from ..pred import cmp_fact
     atoms = [cmp_fact("Eq", a[0][2], a[0][3]) for a in atoms]
-    feasible = lambda b: not (b[0] and b[1])
+    # a fourth, derived atom: self.0.starts_with("\r\n") holds exactly when lf == 1 and the byte before it is '\r'
+    # (lf is the offset of the first '\n')
+    atoms.append((("b", ("call", "str::starts_with", (S, ("str", "\r\n")))), True))
+    feasible = lambda b: not (b[0] and b[1]) and (b[3] == (b[1] and b[2]))
     skip = lambda b: b[0] or (b[1] and b[2])
     rest = ("call", "Index::index", (S, ("adt", "std::ops::RangeFrom", "RangeFrom", (("start", ("bin", "Add", LFI, ("int", 1))),))))
     is_find_variant = lambda f: f[0][0] == "variant" and f[0][1] == find
@@ -514,12 +517,12 @@ def _non_empty_lines(prog, rep):
                 r.check(okt, "rest", "an unterminated rest is yielded once, with no ending, and the state is emptied", D(ret),
                         "for an unterminated rest NonEmptyLines::next returns %s; expected (take(&mut self.0), None)" % D(ret), site=site)
     if ok_rows:
-        got_b = row_models(back_rows, 3, feasible)
-        got_y = row_models(yield_rows, 3, feasible)
-        r.check(got_b == universe(3, skip, feasible), "skip-cond", "a line is skipped exactly when lf == 0 || (lf == 1 && byte before is '\\r')",
+        got_b = row_models(back_rows, 4, feasible)
+        got_y = row_models(yield_rows, 4, feasible)
+        r.check(got_b == universe(4, skip, feasible), "skip-cond", "a line is skipped exactly when lf == 0 || (lf == 1 && byte before is '\\r')",
                 "truth table %s" % sorted(got_b), "NonEmptyLines::next skips a line for the cases %s of (lf == 0, lf == 1, previous byte == '\\r'); "
                 "expected exactly the empty lines \"\\n\" and \"\\r\\n\"" % sorted(got_b))
-        r.check(got_y == universe(3, lambda b: not skip(b), feasible), "yield-cond", "every other line is yielded", "truth table %s" % sorted(got_y),
+        r.check(got_y == universe(4, lambda b: not skip(b), feasible), "yield-cond", "every other line is yielded", "truth table %s" % sorted(got_y),
                 "NonEmptyLines::next yields a line for the cases %s of (lf == 0, lf == 1, previous byte == '\\r'); expected the complement of "
                 "the skip condition" % sorted(got_y))
     r.check(seen == {True, False}, "rest-cases", "the rest is conditional on self.0.is_empty()", str(seen),
